@@ -45,6 +45,9 @@ type HarnessResult struct {
 	Merges      int            `json:"merges"`
 	Observed    []string       `json:"observed,omitempty"`
 	Pending     int            `json:"pending"`
+	PathSamples []PathSample   `json:"path_samples,omitempty"`
+	Uniq        int            `json:"unique_value_substitutions"`
+	Terms       int            `json:"terms"`
 }
 
 type Output struct {
@@ -81,6 +84,8 @@ func main() {
 	concrete := flag.String("concrete", "", "json file with a list of vectors: run concretely")
 	noMerge := flag.Bool("nomerge", false, "disable if-conversion")
 	smtlog := flag.String("smtlog", "", "log solver input to file")
+	paramStr := flag.String("params", "", "k=v,k=v harness parameters")
+	nsamples := flag.Int("samples", 0, "number of completed paths whose model is exported for translator validation")
 	flag.Parse()
 	debug.SetGCPercent(400)
 
@@ -147,6 +152,14 @@ func main() {
 		}
 	}
 
+	params := map[string]int{}
+	for _, kv := range strings.Split(*paramStr, ",") {
+		if i := strings.Index(kv, "="); i > 0 {
+			var v int
+			fmt.Sscanf(kv[i+1:], "%d", &v)
+			params[kv[:i]] = v
+		}
+	}
 	exit := 0
 	for _, name := range strings.Split(*funcs, ",") {
 		h := spkgs[0].Func(name)
@@ -167,6 +180,8 @@ func main() {
 		e.maxInstr = *maxInstr
 		e.firstChoice = *shard
 		e.noMerge = *noMerge
+		e.params = params
+		e.wantSamples = *nsamples
 		e.defaultUnwind = *unwind
 		if *timeout > 0 {
 			e.deadline = time.Now().Add(time.Duration(*timeout) * time.Second)
@@ -237,6 +252,9 @@ func main() {
 		hr.Exhausted = e.Exhausted
 		hr.Merges = e.SpecOK
 		hr.Pending = len(e.work)
+		hr.PathSamples = e.PathSamples
+		hr.Uniq = e.Uniq
+		hr.Terms = termCount
 		var fk []string
 		for k := range e.Findings {
 			fk = append(fk, k)
